@@ -330,11 +330,11 @@ func (ig *ingest) roundRules(e *Effect) {
 			okc := false
 			if ctx.Op == "ext" && ctx.Name == "0" && ctx.Args[0].Op == "call" && ctx.Args[0].Name == "state.For" {
 				hv := ctx.Args[0].Args[1]
-				if ev.Same(unfreeze(Field(hv, "height")), unfreeze(ev.Arg(1))) && Field(hv, "view").Key() == Const("0").Key() && ev.Has(ErrNil(Ext(1, ctx.Args[0]))) != nil {
+				if (ev.Same(unfreeze(Field(hv, "height")), unfreeze(ev.Arg(1))) || ev.Same(Field(hv, "height"), ev.Arg(1))) && Field(hv, "view").Key() == Const("0").Key() && ev.Has(ErrNil(Ext(1, ctx.Args[0]))) != nil {
 					okc = true
 				}
 			}
-			ev.Verdict("K6.round", props("C15", "C13"), "the new-round callback gets the context issued for (the new height, 0)", "", okc, "context is "+PP(ctx))
+			ev.Verdict("K6.round", props("C15", "C13"), "the new-round callback gets the context issued for (the new height, 0)", "", okc, "context is "+PP(ctx)+", height argument is "+PP(ev.Arg(1)))
 		}
 		ev.Verdict("H6.cb", props("C13"), "the new-round callback runs only after a successful strict height increase", "", n > 0, "no successful SetHeightAndResetView on the path")
 		okH := false
